@@ -10,7 +10,7 @@ from vf import common, drive, gen_exps, enum_exps
 from vf.pool import pmap
 
 
-def product_check(rep: common.Report, cases: list[dict], tag: str, prop: str = "C01") -> list[tuple[int, str]]:
+def product_check(rep: common.Report, cases: list[dict], tag: str, prop: str = "C01", extra=None, kind_prefix: str = "compile-equiv") -> list[tuple[int, str]]:
     """TLC: CompileEquiv on the given (accepted) cases.  Returns [(case index, kind)] of violations."""
     out = []
     B = 1500
@@ -31,9 +31,11 @@ def product_check(rep: common.Report, cases: list[dict], tag: str, prop: str = "
             detail = {"routine": int(v[2]), "src_point": [common.tla_unquote(v[3]), int(v[4])], "bytecode_pos": [int(v[5]), int(v[6])],
                       "src_step": common.tla_unquote(v[7]), "bytecode_op": common.tla_unquote(v[8])}
             node = c["nodes"][detail["src_point"][1] - 1] if detail["src_point"][1] >= 1 else {}
-            rep.violation(f"compile-equiv:{kind}",
-                          {"src": c["src"], "detail": detail, "node_kind": node.get("k", ""),
-                           "ops": [[f"{o['off']}:{o['op']}({','.join(o['ps'])})->{o['tgt']}" for o in r] for r in c["ops"]]})
+            w = {"src": c["src"], "detail": detail, "node_kind": node.get("k", ""),
+                 "ops": [[f"{o['off']}:{o['op']}({','.join(o['ps'])})->{o['tgt']}" for o in r] for r in c["ops"]]}
+            if extra is not None:
+                w.update(extra(c))
+            rep.violation(f"{kind_prefix}:{kind}", w)
             out.append((cid, kind))
     return out
 
